@@ -54,8 +54,9 @@ class Obligation:
 
 class ClassSpec:
     """Field table of a class as seen by the contracts (sidecar, not an edit of /repo)."""
-    def __init__(self, name, live=None, fields=None, bases=(), methods=None):
+    def __init__(self, name, live=None, fields=None, bases=(), methods=None, init=None):
         self.name, self.live, self.fields, self.bases = name, live, dict(fields or {}), bases
+        self.init = dict(init or {})           # field -> python constant stored at allocation
         self.methods = dict(methods or {})     # interface methods: name -> stub function (contract keyed by it)
 
 
@@ -335,6 +336,8 @@ class Ctx:
             if self.branch(v.none):
                 return VNone()
             return self.load(v.val, origin, split)
+        if isinstance(v, VTuple):
+            v.items = [self.load(i, None, split) for i in v.items]
         if isinstance(v, (VList, VDict)):
             v.origin = origin
         if isinstance(v, VRef):
@@ -488,6 +491,8 @@ class Ctx:
                     self.heap_write(r, name, VNone())
                 elif name.endswith('?set'):
                     self.heap_write(r, name, VBool(False))
+            for name, val in sp.init.items():
+                self.heap_write(r, name, const_to_v(val))
             stack.extend(sp.bases)
         return r
 
